@@ -636,9 +636,11 @@ theorem doStep_pres (s : St) (i : Inv s) (op : Op) :
     exact dispatch_pres R s i false true
   | connect =>
     simp only [doStep, fed, List.append_nil]
-    have r : RS s { s with connecting := true, cfut := some s.nextId, nextId := s.nextId + 1 } :=
-      ⟨rfl, rfl, rfl, rfl, rfl, rfl, rfl, rfl, rfl, rfl⟩
-    exact (RS.trans r (addIo_rs _ _ _)).pres i
+    split
+    · exact Pres.refl i
+    · have r : RS s { s with connecting := true, cfut := some s.nextId, nextId := s.nextId + 1 } :=
+        ⟨rfl, rfl, rfl, rfl, rfl, rfl, rfl, rfl, rfl, rfl⟩
+      exact (RS.trans r (addIo_rs _ _ _)).pres i
   | cerr k =>
     simp only [doStep, fed, List.append_nil]
     have r : RS s { s with cerr := some k } := ⟨rfl, rfl, rfl, rfl, rfl, rfl, rfl, rfl, rfl, rfl⟩
